@@ -306,7 +306,15 @@ def _do_call(world, op, pins=None):
     pin_lines = []
     exc = None
     try:
-        if k == "randomize":
+        kw = ""
+        if k in ("randomize", "randomize_with"):
+            extra = op[2] if (k == "randomize" and len(op) > 2) else (op[3] if (k == "randomize_with" and len(op) > 3) else None)
+            if extra:
+                kw = ", ".join("%s=%r" % (a, b) for a, b in sorted(extra.items()))
+        if k == "randomize" and kw and not pins:
+            ns["OBJ"] = world.real(tuple(op[1]))
+            exec("OBJ.randomize(%s)" % kw, ns)
+        elif k == "randomize":
             obj = world.real(tuple(op[1]))
             if pins:
                 ns["it"] = None
@@ -318,7 +326,7 @@ def _do_call(world, op, pins=None):
         elif k == "randomize_with":
             obj = world.real(tuple(op[1]))
             ns["OBJ"] = obj
-            src = ["with OBJ.randomize_with() as it:"] + ["    " + l for l in P.py_stmts(list(op[2]) + list(pins or []), "it", 0)]
+            src = ["with OBJ.randomize_with(%s) as it:" % kw] + ["    " + l for l in P.py_stmts(list(op[2]) + list(pins or []), "it", 0)]
             exec("\n".join(src), ns)
         elif k == "vsc_randomize":
             roots = [world.real(tuple(p), raw=True) for p in op[1]]
